@@ -19,10 +19,24 @@ class Unpicklable:
     def __reduce__(self): raise TypeError('cannot encode')
 
 
+def dyn_class():
+    """a class that exists only in the process that stores its instance (defined in `__main__` of the writer):
+    dill pickles it by value, so a reader that has never heard of it can still load the instance"""
+    import __main__
+    if not hasattr(__main__, 'Dyn'):
+        ns = {}
+        exec("class Dyn(object):\n    def __init__(self, n): self.n = n; self.tag = 'dyn'\n", __main__.__dict__, ns)
+        ns['Dyn'].__module__ = '__main__'
+        __main__.Dyn = ns['Dyn']
+    return __main__.Dyn
+
+
 def mat(v, made):
     """materialise value descriptions: mutable containers are fresh objects that the writer mutates after storing"""
     if isinstance(v, dict) and '__fn__' in v:
         return sq if v['__fn__'] == 'sq' else (lambda x, _k=v['__fn__']: (x, _k))
+    if isinstance(v, dict) and '__dyn__' in v:
+        return dyn_class()(v['__dyn__'])
     if isinstance(v, dict) and '__mut__' in v:
         o = pickle.loads(bytes.fromhex(v['__mut__']))
         made.append(o)
